@@ -45,6 +45,12 @@ def _history_is_different(runner, job_upstream_id, job_downstream_id, str_last, 
             inputs = runner.job_inputs[job_downstream_id]
             for ip in inputs:
                 if ip in outputs:
+                    if ip not in obj_last:
+                        # The old record stems from a (since renamed) multi output job
+                        # that did not produce this output - the rust side matches
+                        # renamed jobs by overlapping outputs only.
+                        # We have no record of what was consumed back then: altered.
+                        return True
                     lip = obj_last[ip]
                     nip = obj_now[ip]
                     altered = not job_upstream.compare_hashes(lip, nip)
